@@ -257,7 +257,7 @@ static void case_fuzzy(Tape &t, Ctx &cx)
     a_pid_fuzzy z;
     memset(&z, 0, sizeof(z));
     apply(z.pid, c);
-    a_pid_fuzzy_set_opr(&z, f.opr);
+    install_opr(&z, f.opr, f.opr_style);
     auto dup = [](std::vector<R> const &v) {
         R *p = (R *)malloc(sizeof(R) * v.size());
         memcpy(p, v.data(), sizeof(R) * v.size());
@@ -322,9 +322,9 @@ static void case_fuzzy(Tape &t, Ctx &cx)
                 // a different operator on a live controller
                 f.opr = t.u8() % 7;
                 cx.log("set_opr mid-history: %u\n", f.opr);
-                a_pid_fuzzy_set_opr(&z, f.opr);
+                install_opr(&z, f.opr, f.opr_style);
                 zm.set_opr(f.opr);
-                if (have_fresh) { a_pid_fuzzy_set_opr(&fresh, f.opr); }
+                if (have_fresh) { install_opr(&fresh, f.opr, f.opr_style); }
                 cx.label(L_RULES_RECONFIGURED);
                 cx.hash.add(f.opr);
                 continue;
@@ -340,7 +340,7 @@ static void case_fuzzy(Tape &t, Ctx &cx)
             // a freshly initialised controller with the same configuration
             memset(&fresh, 0, sizeof(fresh));
             apply(fresh.pid, c);
-            a_pid_fuzzy_set_opr(&fresh, f.opr);
+            install_opr(&fresh, f.opr, f.opr_style);
             a_pid_fuzzy_set_rule(&fresh, f.n, me, mec, f.use_kp ? kp : nullptr, f.use_ki ? ki : nullptr, f.use_kd ? kd : nullptr);
             a_pid_fuzzy_set_bfuzz(&fresh, buf2, f.n);
             a_pid_fuzzy_init(&fresh);
